@@ -343,6 +343,13 @@ def witness_null_chain(repo, eng, r, key_prefix):
     f2 = repo.lookup_method(elem_cls, meth)
     d = is_delegating_null(repo, f2) if f2 else None
     if d is None:
+        # truthiness of the ITEMS instead of the number of items: `not any(stack)` calls a stack of empty byte strings null
+        e_ = common.return_expr(f2) if f2 is not None else None
+        if e_ is not None and isinstance(e_, ast.UnaryOp) and isinstance(e_.op, ast.Not) and isinstance(e_.operand, ast.Call) and norm(e_.operand.func) == 'any' \
+                and len(e_.operand.args) == 1 and 'self.' in norm(e_.operand.args[0]):
+            r.violated(key_prefix + ':CTxInWitness.is_null', f2.site, 'the witness of an input is called null when `%s`: that tests the truth of the stack ITEMS, so a stack holding only empty '
+                       'byte strings counts as no witness (null is: the stack has no items)' % norm(e_), sure=True)
+            return False
         r.undecided(key_prefix + ':CTxInWitness.is_null', f2.site if f2 else elem_cls.site, 'unrecognised spelling')
         return False
     inner_cls = eng.field_class(elem_cls, d[0]) or repo.get_class('bitcoin.core.script.CScriptWitness')
